@@ -56,9 +56,6 @@ Definition run_C15 (op : bytes) (input : arg) : arg :=
    except the regenerated name table, which plays the role of the READER's registry of
    short names: a short name is acceptable only if it names exactly one OID. *)
 
-Definition valid_utf8 (s : bytes) : bool :=
-  forallb (fun x => match x with (_, v, _, _) => v end) (runes s).
-
 (* short names fixed by RFC 4514 section 3 *)
 Definition rfc4514_names : list (bytes * list N) := [
   (bs "CN", [2; 5; 4; 3]); (bs "L", [2; 5; 4; 7]); (bs "ST", [2; 5; 4; 8]);
@@ -149,9 +146,16 @@ Definition want_of_name (a : arg) : option (list (list (list N * expect))) :=
   | _ => None
   end.
 
-Definition judge_raw (a : arg) (text : bytes) : arg :=
+(* [strict = false] (FromRawDN called on arbitrary bytes): when the library decoding the code
+   relies on refuses the bytes, they are not a name and FromRawDN's hex fallback is not judged.
+   [strict = true] (a certificate crypto/x509 accepted): the name must be printed readably. *)
+Definition judge_raw (strict : bool) (a : arg) (text : bytes) : arg :=
   match want_of_name (arg_nth 2 a) with
-  | Some w => judge w text
+  | Some w =>
+      match parsed_of_arg (arg_nth 1 a) with
+      | None => if strict then judge w text else AL []
+      | Some _ => judge w text
+      end
   | None => AL []
   end.
 
@@ -180,13 +184,13 @@ Definition check_C15 (op : bytes) (input impl : arg) : arg :=
     end
   else if bytes_eqb op (bs "rawdn") then
     match impl with
-    | AL [AZ 0%Z; AB text] => judge_raw input text
+    | AL [AZ 0%Z; AB text] => judge_raw false input text
     | _ => AS "rendering the name failed (panic)"
     end
   else if bytes_eqb op (bs "cert") then
     match impl with
     | AL [AZ 0%Z; AL [AB subj; AB iss]] =>
-        first_bad [judge_raw (arg_nth 1 input) subj; judge_raw (arg_nth 2 input) iss]
+        first_bad [judge_raw true (arg_nth 1 input) subj; judge_raw true (arg_nth 2 input) iss]
     | AL [AZ 2%Z] => AS "inspection panicked"
     | _ => AL []
     end
